@@ -47,12 +47,17 @@ def build(place, toppure, n, edges, hollow=None, verbose=False):
     o1 = SJob('o1', 6)
     if place == 'd1':
         hold = SSched('N', 7, *jobs, required=o1)
-        top = Top('top', 0, o1, hold)
+        # t0 comes after the nested scheduler: its number in list() depends
+        # on the numbering of everything inside N (C15-w6m1)
+        t0 = SJob('t0', 8, required=hold)
+        top = Top('top', 0, o1, hold, t0)
         return top, hold, jobs, [hold]
     o2 = SJob('o2', 5)
     hold = SSched('M', 6, *jobs, required=o2)
-    mid = SSched('N', 7, o2, hold, required=o1)
-    top = Top('top', 0, o1, mid)
+    t1 = SJob('t1', 9, required=hold)
+    mid = SSched('N', 7, o2, hold, t1, required=o1)
+    t0 = SJob('t0', 8, required=mid)
+    top = Top('top', 0, o1, mid, t0)
     return top, hold, jobs, [mid, hold]
 
 
